@@ -38,9 +38,12 @@ class Taint:
     `as_usize` only returns a label to the callers that passed one in); sinks inside a callee and field writes are context-insensitive."""
 
     def __init__(self, fx, label, source_calls=(), source_params=(), source_fields=(), kill=DEFAULT_KILL,
-                 kill_calls=(), sanitizers=(), carrier=None):
+                 kill_calls=(), sanitizers=(), carrier=None, local_only=()):
         self.fx = fx
         self.label = label
+        # ADTs whose fields are never labelled globally (value types that are created everywhere, e.g. a line/column pair):
+        # the label stays with the local that holds the value
+        self.local_only = tuple(local_only)
         self.carrier = carrier or (lambda ty: True)
         self._carrier_cache = {}
         self.source_calls = tuple(source_calls)
@@ -83,8 +86,8 @@ class Taint:
         tags = self.o[fid].get(p["l"])
         tags = set(tags) if tags else set()
         for e in (p.get("p") or []):
-            if isinstance(e, dict) and "n" in e and _workspace(e["of"]):
-                if (e["of"], e["n"]) in self.fields or self._field_src(e["of"], e["n"]):
+            if isinstance(e, dict) and "n" in e:
+                if (_workspace(e["of"]) and (e["of"], e["n"]) in self.fields) or self._field_src(e["of"], e["n"]):
                     tags.add("S")
         return tags
 
@@ -115,7 +118,8 @@ class Taint:
         ch = False
         if not tags:
             return False
-        named = [e for e in (p.get("p") or []) if isinstance(e, dict) and "n" in e and _workspace(e["of"])]
+        named = [e for e in (p.get("p") or []) if isinstance(e, dict) and "n" in e and _workspace(e["of"]) and
+                 not any(e["of"].startswith(lo) for lo in self.local_only)]
         if named:
             e = named[-1]
             key = (e["of"], e["n"])
@@ -244,7 +248,8 @@ class Taint:
                         for i, op in enumerate(rv["ops"]):
                             ot = self.op_orig(fid, op)
                             tags |= ot
-                            if rv.get("ak") == "adt" and _workspace(rv["adt"]) and self._eff(fid, ot) and i < len(rv.get("fields", [])):
+                            if rv.get("ak") == "adt" and _workspace(rv["adt"]) and self._eff(fid, ot) and i < len(rv.get("fields", [])) and \
+                                    not any(rv["adt"].startswith(lo) for lo in self.local_only):
                                 of = rv["adt"] + ("::" + rv["variant"] if self._is_enum(rv["adt"]) else "")
                                 key = (of, rv["fields"][i])
                                 if key not in self.fields:
